@@ -24,6 +24,9 @@ Proof.
 Qed.
 
 (* the buffers the writer holds *)
+Section WithX.
+Variable X : list (nat * bytes).
+
 Definition wowned (st : hwriter) : list nat := filter (notin (wlent st)) (wblocks st).
 
 Lemma In_wblocks_foot st b : In b (wblocks st) -> In b (wowned st ++ wlent st ++ wgiven st).
@@ -61,7 +64,7 @@ Definition reg_ok (h : heap) (st : hwriter) (r : region) : Prop :=
    exists c, wbuf st = Some c /\ 0 < scp c /\ reg_in 0 (wpend st) c r /\ rd h (gblk r) (gphys r) (gln r) = gval r).
 
 Record winv (st : hwriter) (e : env) : Prop := mkwinv {
-  wv_e : einv (wowned st) (wlent st) (wgiven st) e;
+  wv_e : einv X (wowned st) (wlent st) (wgiven st) e;
   wv_nocache : wnocache st = false -> wlent st = [];
   wv_nodup : NoDup (wblocks st);
   wv_cur : match wbuf st with
@@ -129,14 +132,14 @@ Proof.
 Qed.
 
 Lemma winv_of st e :
-  einv (wowned st) (wlent st) (wgiven st) e -> (wnocache st = false -> wlent st = []) -> NoDup (wblocks st) ->
+  einv X (wowned st) (wlent st) (wgiven st) e -> (wnocache st = false -> wlent st = []) -> NoDup (wblocks st) ->
   match wbuf st with Some c => chain 0 (wpend st) c | None => True end ->
   Forall (fun r => glog r + gln r <= wlen st) (wregs st) -> ForallOrdPairs ldisj (wregs st) ->
   wshape st (wh (ew e)) -> winv st e.
 Proof. intros A B C D E E' [F G H]. split; assumption. Qed.
 
 Lemma winv_frame st e e' :
-  winv st e -> einv (wowned st) (wlent st) (wgiven st) e' ->
+  winv st e -> einv X (wowned st) (wlent st) (wgiven st) e' ->
   same_on (wowned st ++ wlent st ++ wgiven st) (wh (ew e)) (wh (ew e')) -> winv st e'.
 Proof.
   intros Hi He Hs. destruct Hi as [A B C D E F G G' H].
@@ -160,8 +163,8 @@ Proof.
 Qed.
 
 Lemma w_newbuf_spec O L R e nc c e' b cp :
-  einv O L R e -> w_newbuf e nc c = (e', b, cp) ->
-  einv (b :: O) L R e' /\ ~ In b (O ++ L ++ R) /\ len (block (wh (ew e')) b) = cp /\ c <= cp /\
+  einv X O L R e -> w_newbuf e nc c = (e', b, cp) ->
+  einv X (b :: O) L R e' /\ ~ In b (O ++ L ++ R) /\ len (block (wh (ew e')) b) = cp /\ c <= cp /\
   same_on (O ++ L ++ R) (wh (ew e)) (wh (ew e')).
 Proof.
   intros Hi E. unfold w_newbuf in E. destruct nc.
@@ -207,8 +210,8 @@ Proof.
   - destruct H as [H1 H2]. right. eapply IH; eassumption.
 Qed.
 
-Lemma wowned_cons st b X :
-  ~ In b (wlent st) -> Permutation (b :: wblocks st) X -> Permutation (b :: wowned st) (filter (notin (wlent st)) X).
+Lemma wowned_cons st b Y :
+  ~ In b (wlent st) -> Permutation (b :: wblocks st) Y -> Permutation (b :: wowned st) (filter (notin (wlent st)) Y).
 Proof.
   intros Hb P. unfold wowned. apply (Permutation_filter' (notin (wlent st))) in P.
   cbn [filter] in P. assert (notin (wlent st) b = true) as Hn by now apply notin_true. now rewrite Hn in P.
@@ -720,7 +723,7 @@ Proof.
   assert (Hbnd : gphys t + gln t <= len (block (wh (ew e)) (gblk t))) by (rewrite J1; lia).
   assert (Htb : In (gblk t) (wblocks st)) by (rewrite J1; eapply buf_in_blocks; eassumption).
   assert (Hvalid : (gblk t < length (wh (ew e)))%nat).
-  { destruct A as [_ [_ Sv _] _]. rewrite Forall_forall in Sv. apply Sv. now apply In_wblocks_foot. }
+  { destruct (einv_sep3 _ _ _ _ A) as [_ Sv _]. rewrite Forall_forall in Sv. apply Sv. now apply In_wblocks_foot. }
   set (hh := write (wh (ew e)) (gblk t, gphys t + off) data).
   assert (Hw : block hh (gblk t) = splice (block (wh (ew e)) (gblk t)) (gphys t + off) data)
     by (apply block_write_same; assumption).
@@ -734,10 +737,11 @@ Proof.
   assert (Hbuf : forall x, buf_ok (wh (ew e)) (wlent st) x -> buf_ok hh (wlent st) x).
   { intros x (X1 & X2 & X3 & X4). unfold buf_ok. rewrite Hlen. splits; assumption. }
   apply winv_of; cbn [wset_regs wlent wgiven wnocache wbuf wpend wregs ew eev wh]; try assumption.
-  - destruct A as [Wk Sp Mn]. split; cbn [ew eev].
-    + eapply wok_mono; [| | |exact Wk]; cbn [wpool wcot wh]; try reflexivity; rewrite set_nth_length; lia.
-    + eapply sep_mono; [| | |exact Sp]; cbn [wpool wcot wh]; try reflexivity; rewrite set_nth_length; lia.
-    + exact Mn.
+  - apply (einv_caller_write _ _ _ _ hh A).
+    + subst hh. apply length_write.
+    + intros x Hx. apply Ho. intros ->.
+      destruct A as [_ [Sn _ _] _ _]. apply In_wblocks_foot in Htb.
+      rewrite <- foot_assoc in Sn. exact (NoDup_app_disj _ _ _ Sn Htb Hx).
   - now rewrite Hb.
   - eapply Forall2_geom_Forall; [|apply upd_open_geom|exact G].
     intros r r' (G1 & G2 & G3 & G4 & G5) Hr. unfold wlen in *. cbn [wset_regs wbuf] in *. lia.
@@ -768,13 +772,13 @@ Section Stitch.
   Variables (O L G : list nat) (c : bslice).
 
   Lemma stitch_spec : forall pd lo e e' off',
-    einv O L G e ->
+    einv X O L G e ->
     In (sblk c) (O ++ L) -> (forall p, In p pd -> In (sblk p) (O ++ L ++ G)) ->
     NoDup (sblk c :: map sblk pd) ->
     buf_ok (wh (ew e)) L c -> Forall (buf_ok (wh (ew e)) L) pd ->
     chain lo pd c ->
     stitch e pd c lo = Some (e', off') ->
-    einv O L G e' /\
+    einv X O L G e' /\
     (forall b, b <> sblk c -> block (wh (ew e')) b = block (wh (ew e)) b) /\
     len (block (wh (ew e')) (sblk c)) = len (block (wh (ew e)) (sblk c)) /\
     lo <= off' /\ off' <= sln c /\
@@ -889,14 +893,14 @@ Proof.
     rewrite Hb in Hc1. inversion Hc1; subst c'. now apply S8.
 Qed.
 
-Lemma wfree_all_inv R : forall pd X e,
-  einv (X ++ map sblk pd) [] R e -> Forall (fun p => soff p = 0 /\ scp p = len (block (wh (ew e)) (sblk p))) pd ->
-  einv X [] R (OwnWriter.free_all e pd).
+Lemma wfree_all_inv R : forall pd Y e,
+  einv X (Y ++ map sblk pd) [] R e -> Forall (fun p => soff p = 0 /\ scp p = len (block (wh (ew e)) (sblk p))) pd ->
+  einv X Y [] R (OwnWriter.free_all e pd).
 Proof.
-  induction pd as [|p pd IH]; intros X e Hi Hw; cbn [OwnWriter.free_all map].
+  induction pd as [|p pd IH]; intros Y e Hi Hw; cbn [OwnWriter.free_all map].
   - now rewrite app_nil_r in Hi.
   - cbn [map] in Hi. inversion Hw as [|? ? Hp Hr]; subst. destruct Hp as (P1 & P2).
-    assert (Hi' : einv (sblk p :: X ++ map sblk pd) [] R e).
+    assert (Hi' : einv X (sblk p :: Y ++ map sblk pd) [] R e).
     { eapply einv_perm; [|exact Hi]. apply Permutation_sym, Permutation_middle. }
     destruct (einv_free _ _ _ _ p Hi' (or_introl eq_refl) P1 P2) as (F1 & [F2 _] & F3).
     cbn [remove1] in F1, F2. rewrite Nat.eqb_refl in F1, F2.
@@ -906,14 +910,14 @@ Proof.
 Qed.
 
 Lemma wdrop_all_inv L G : forall pd O e,
-  einv O L G e -> NoDup (map sblk pd) -> (forall p, In p pd -> In (sblk p) (O ++ L)) ->
-  exists O', einv O' L G (OwnWriter.drop_all e pd) /\ ew (OwnWriter.drop_all e pd) = ew e /\
+  einv X O L G e -> NoDup (map sblk pd) -> (forall p, In p pd -> In (sblk p) (O ++ L)) ->
+  exists O', einv X O' L G (OwnWriter.drop_all e pd) /\ ew (OwnWriter.drop_all e pd) = ew e /\
              (forall x, In x O' -> In x O /\ ~ In x (map sblk pd)).
 Proof.
   induction pd as [|p pd IH]; intros O e Hi Hnd Hin; cbn [OwnWriter.drop_all map].
   - exists O. splits; [assumption|reflexivity|]. intros x Hx. split; [assumption|intros []].
   - inversion Hnd as [|? ? Hnp Hnd']; subst.
-    assert (HnO : NoDup O) by (destruct Hi as [_ [Sn _ _] _]; now apply NoDup_app_l in Sn).
+    assert (HnO : NoDup O) by (destruct (einv_sep3 _ _ _ _ Hi) as [Sn _ _]; now apply NoDup_app_l in Sn).
     destruct (in_dec Nat.eq_dec (sblk p) O) as [HpO|HpO].
     + pose proof (einv_drop_owned _ _ _ _ _ Hi HpO) as Hi1.
       assert (Hin1 : forall q, In q pd -> In (sblk q) (remove1 (sblk p) O ++ L)).
@@ -942,7 +946,7 @@ Lemma winv_sink st e k x :
 Proof. intros [A B C D E F G G' H]. apply winv_of; try assumption. split; assumption. Qed.
 
 Lemma winv_reset e nc bk bi k ns L G :
-  einv [] L G e -> (nc = false -> L = []) ->
+  einv X [] L G e -> (nc = false -> L = []) ->
   winv (mkWr None [] None nc bk bi k [] ns L G) e.
 Proof.
   intros Hi Hn. apply winv_of; unfold wowned, wblocks, curblk; cbn [wbuf wpend wlent wgiven wnocache wregs map app filter];
@@ -1034,7 +1038,7 @@ Proof.
            assert (HcO : In (sblk c) (wowned st)).
            { unfold wowned. apply filter_In. split; [rewrite Hbl; now left|now apply notin_true]. }
            pose proof (einv_give_owned _ _ _ _ _ He3 HcO) as Hg.
-           assert (HnO : NoDup (wowned st)) by (destruct He3 as [_ [Sn _ _] _]; now apply NoDup_app_l in Sn).
+           assert (HnO : NoDup (wowned st)) by (destruct (einv_sep3 _ _ _ _ He3) as [Sn _ _]; now apply NoDup_app_l in Sn).
            destruct (wdrop_all_inv _ _ (wpend st) _ _ Hg Hnp
                        (Hpd _ (fun x Hx Hne => In_remove1_ne _ _ _ Hne Hx))) as (O' & D1 & D2 & D3).
            assert (O' = []) as ->.
@@ -1085,9 +1089,8 @@ Proof.
 Qed.
 Lemma winv_co st e l al adv padv : winv st e -> winv st (mkE (co_run (ew e) l) al adv padv (eev e)).
 Proof.
-  intros Hi. destruct (wv_e _ _ Hi) as [Wk Sp Mn].
-  destruct (co_run_spec l _ _ Wk Sp) as (A1 & A2 & A3 & A4).
-  eapply winv_frame; [exact Hi| |exact A3]. split; assumption.
+  intros Hi. destruct (einv_co _ _ _ _ _ l al adv padv (wv_e _ _ Hi)) as [A [B _]].
+  eapply winv_frame; eassumption.
 Qed.
 
 Lemma wrun_step_inv st w tr s st' w' tr' o :
@@ -1110,15 +1113,15 @@ Proof.
     inversion E; subst; clear E. eapply IH; [|exact Er]. eapply wrun_step_inv; eassumption.
 Qed.
 
-Lemma winv_new_writer failk w : wok w -> winv (new_writer failk) (env_of w []).
-Proof. intros Wk. unfold new_writer. apply winv_reset; [exact (einv_init w Wk)|reflexivity]. Qed.
+Lemma winv_new_writer failk w : xok X w -> winv (new_writer failk) (env_of w []).
+Proof. intros (Wk & Sx & Hx). unfold new_writer. apply winv_reset; [exact (einv_init X w Wk Sx Hx)|reflexivity]. Qed.
 
 Lemma winv_new_bytes_writer w isnil pre data spare st e :
-  wok w -> new_bytes_writer (env_of w []) isnil pre data spare = (st, e) -> winv st e.
+  xok X w -> new_bytes_writer (env_of w []) isnil pre data spare = (st, e) -> winv st e.
 Proof.
-  intros Wk E. unfold new_bytes_writer in E. destruct (0 <? len data + len spare) eqn:Ec.
+  intros (Wk & Sx & Hx) E. unfold new_bytes_writer in E. destruct (0 <? len data + len spare) eqn:Ec.
   - destruct (e_lend (env_of w []) (pre ++ data ++ spare) false) as [e1 b] eqn:El. inversion E; subst; clear E.
-    destruct (einv_lend _ _ _ _ _ _ _ _ (einv_init w Wk) El) as (A1 & A2 & A3 & A4 & A5).
+    destruct (einv_lend _ _ _ _ _ _ _ _ (einv_init X w Wk Sx Hx) El) as (A1 & A2 & A3 & A4 & A5).
     assert (Hs1 : 0 <? len data + len spare = true) by assumption.
     assert (Hnot : notin [b] b = false) by (unfold notin, memb; cbn; now rewrite Nat.eqb_refl).
     apply winv_of; unfold wowned, wblocks, curblk, wlen; cbn [wbuf wpend wlent wgiven wnocache wregs map app scp sblk sln].
@@ -1139,7 +1142,7 @@ Proof.
         -- unfold rd. rewrite A3. rewrite drop_app_len. now rewrite take_app_len.
   - inversion E; subst; clear E.
     apply winv_of; unfold wowned, wblocks, curblk, wlen; cbn [wbuf wpend wlent wgiven wnocache wregs map app scp sblk sln filter].
-    + destruct isnil; cbn [scp N.ltb N.compare app filter]; exact (einv_init w Wk).
+    + destruct isnil; cbn [scp N.ltb N.compare app filter]; exact (einv_init X w Wk Sx Hx).
     + intros; discriminate.
     + destruct isnil; cbn; constructor.
     + destruct isnil; [exact I|cbn [chain sln]; lia].
@@ -1187,47 +1190,49 @@ Qed.
 Lemma winv_trace st e : winv st e ->
   no_use_after_free (rev (eev e)) /\ caller_untouched (rev (eev e)) /\ frees_whole_blocks (rev (eev e)).
 Proof.
-  intros Hi. destruct (wv_e _ _ Hi) as [_ _ (m & Hm & _)]. eapply montr_spec; eassumption.
+  intros Hi. destruct (wv_e _ _ Hi) as [_ _ (m & Hm & _) _]. eapply montr_spec; eassumption.
 Qed.
+
+End WithX.
 
 (* ---------- the theorems ---------- *)
 Theorem writer_regions_disjoint_stable failk w0 h st w tr outs :
   wok w0 -> wrun (new_writer failk, w0, []) h = (st, w, tr, outs) ->
   ForallOrdPairs pdisj (wregs st) /\ Forall (region_held st (wh w)) (wregs st).
 Proof.
-  intros Wk E. pose proof (wrun_inv _ _ _ _ _ _ _ _ (winv_new_writer failk w0 Wk) E) as Hi.
-  exact (winv_regions _ _ Hi).
+  intros Wk E. pose proof (wrun_inv [] _ _ _ _ _ _ _ _ (winv_new_writer [] failk w0 (xok_nil w0 Wk)) E) as Hi.
+  exact (winv_regions [] _ _ Hi).
 Qed.
 Theorem writer_flush_content failk w0 h st w tr outs al adv padv st' e' ob content :
   wok w0 -> wrun (new_writer failk, w0, []) h = (st, w, tr, outs) ->
   h_flush st (mkE w al adv padv tr) = (st', e', ob) -> oflushed ob = Some content ->
   flush_content_ok st content.
 Proof.
-  intros Wk E Ef Hc. pose proof (wrun_inv _ _ _ _ _ _ _ _ (winv_new_writer failk w0 Wk) E) as Hi.
-  assert (Hi' : winv st (mkE w al adv padv tr)) by (eapply winv_env; [| |exact Hi]; reflexivity).
-  destruct (h_flush_inv _ _ _ _ _ Hi' Ef) as [_ H]. now apply H.
+  intros Wk E Ef Hc. pose proof (wrun_inv [] _ _ _ _ _ _ _ _ (winv_new_writer [] failk w0 (xok_nil w0 Wk)) E) as Hi.
+  assert (Hi' : winv [] st (mkE w al adv padv tr)) by (eapply winv_env; [| |exact Hi]; reflexivity).
+  destruct (h_flush_inv [] _ _ _ _ _ Hi' Ef) as [_ H]. now apply H.
 Qed.
 Theorem writer_trace_ok failk w0 h st w tr outs :
   wok w0 -> wrun (new_writer failk, w0, []) h = (st, w, tr, outs) ->
   no_use_after_free (rev tr) /\ caller_untouched (rev tr) /\ frees_whole_blocks (rev tr).
 Proof.
-  intros Wk E. pose proof (wrun_inv _ _ _ _ _ _ _ _ (winv_new_writer failk w0 Wk) E) as Hi.
-  exact (winv_trace _ _ Hi).
+  intros Wk E. pose proof (wrun_inv [] _ _ _ _ _ _ _ _ (winv_new_writer [] failk w0 (xok_nil w0 Wk)) E) as Hi.
+  exact (winv_trace [] _ _ Hi).
 Qed.
 
 Lemma bytes_writer_inv w0 isnil pre data spare st0 e0 h st w tr outs :
   wok w0 -> new_bytes_writer (env_of w0 []) isnil pre data spare = (st0, e0) ->
-  wrun (st0, ew e0, eev e0) h = (st, w, tr, outs) -> winv st (env_of w tr).
+  wrun (st0, ew e0, eev e0) h = (st, w, tr, outs) -> winv [] st (env_of w tr).
 Proof.
-  intros Wk E0 E. pose proof (winv_new_bytes_writer _ _ _ _ _ _ _ Wk E0) as Hi0.
-  assert (Hi0' : winv st0 (env_of (ew e0) (eev e0))) by (eapply winv_env; [| |exact Hi0]; reflexivity).
-  exact (wrun_inv _ _ _ _ _ _ _ _ Hi0' E).
+  intros Wk E0 E. pose proof (winv_new_bytes_writer [] _ _ _ _ _ _ _ (xok_nil w0 Wk) E0) as Hi0.
+  assert (Hi0' : winv [] st0 (env_of (ew e0) (eev e0))) by (eapply winv_env; [| |exact Hi0]; reflexivity).
+  exact (wrun_inv [] _ _ _ _ _ _ _ _ Hi0' E).
 Qed.
 Theorem bytes_writer_regions_disjoint_stable w0 isnil pre data spare st0 e0 h st w tr outs :
   wok w0 -> new_bytes_writer (env_of w0 []) isnil pre data spare = (st0, e0) ->
   wrun (st0, ew e0, eev e0) h = (st, w, tr, outs) ->
   ForallOrdPairs pdisj (wregs st) /\ Forall (region_held st (wh w)) (wregs st).
-Proof. intros Wk E0 E. exact (winv_regions _ _ (bytes_writer_inv _ _ _ _ _ _ _ _ _ _ _ _ Wk E0 E)). Qed.
+Proof. intros Wk E0 E. exact (winv_regions [] _ _ (bytes_writer_inv _ _ _ _ _ _ _ _ _ _ _ _ Wk E0 E)). Qed.
 Theorem bytes_writer_flush_content w0 isnil pre data spare st0 e0 h st w tr outs al adv padv st' e' ob content :
   wok w0 -> new_bytes_writer (env_of w0 []) isnil pre data spare = (st0, e0) ->
   wrun (st0, ew e0, eev e0) h = (st, w, tr, outs) ->
@@ -1235,11 +1240,11 @@ Theorem bytes_writer_flush_content w0 isnil pre data spare st0 e0 h st w tr outs
   flush_content_ok st content.
 Proof.
   intros Wk E0 E Ef Hc. pose proof (bytes_writer_inv _ _ _ _ _ _ _ _ _ _ _ _ Wk E0 E) as Hi.
-  assert (Hi' : winv st (mkE w al adv padv tr)) by (eapply winv_env; [| |exact Hi]; reflexivity).
-  destruct (h_flush_inv _ _ _ _ _ Hi' Ef) as [_ H]. now apply H.
+  assert (Hi' : winv [] st (mkE w al adv padv tr)) by (eapply winv_env; [| |exact Hi]; reflexivity).
+  destruct (h_flush_inv [] _ _ _ _ _ Hi' Ef) as [_ H]. now apply H.
 Qed.
 Theorem bytes_writer_trace_ok w0 isnil pre data spare st0 e0 h st w tr outs :
   wok w0 -> new_bytes_writer (env_of w0 []) isnil pre data spare = (st0, e0) ->
   wrun (st0, ew e0, eev e0) h = (st, w, tr, outs) ->
   no_use_after_free (rev tr) /\ caller_untouched (rev tr) /\ frees_whole_blocks (rev tr).
-Proof. intros Wk E0 E. exact (winv_trace _ _ (bytes_writer_inv _ _ _ _ _ _ _ _ _ _ _ _ Wk E0 E)). Qed.
+Proof. intros Wk E0 E. exact (winv_trace [] _ _ (bytes_writer_inv _ _ _ _ _ _ _ _ _ _ _ _ Wk E0 E)). Qed.
